@@ -30,6 +30,19 @@ CLAIMED = {
         technique='Coq proof (strong induction against an inductive spec relation; nested induction on values) + '
                   'differential correspondence via vm_compute',
         ref='DESIGN.md section 5, C11'),
+    'C16': dict(
+        category='proof',
+        text='Theorems for every signature, positional prefix and keyword order: the decorator\'s normalisation binds '
+             'each parameter exactly as Python does (positional, else keyword, else default) and nothing else; two '
+             'bindings get the same key iff they agree as mappings on all non-ignored parameters (up to dict key order); '
+             'ignored arguments never matter; (method, version) sub-cache names are injective; per-call laws for '
+             'only_cache / force_cache / store_cache_value over a dictionary cache (executes exactly when absent or forced, '
+             'touches only its own entry). Tied to cached.__call__ by differential histories with recorded cache keys; '
+             'the oracle uses inspect.signature.bind as the reference binding.',
+        note='json.dumps(sort_keys=True) trusted to be injective on JSON-distinguishable values; valid calls only; '
+             'file-backed caches are C14',
+        technique='Coq proof (association-list maps, sorted-permutation uniqueness) + differential correspondence via vm_compute',
+        ref='DESIGN.md section 5, C16'),
     'C17': dict(
         category='proof',
         text='Theorems over all lists, chunk sizes, thread counts and all per-chunk completion orders (Permutation '
